@@ -453,6 +453,7 @@ OLD_RNA_MECH = "C12/get_translation/old-rna/codons-unresolvable-against-dna-codo
 EMPTY_MECH = "C12/has_terminal_stop/empty-sequence/raises-InvalidCodonError"
 ALN_TRIM_MECH = "C12/alignment.get_translation/trim_stop-false-ignored"
 RNA_TRIM_MECH = "C12/trim_stop_codons/rna/stop-pattern-spelled-as-dna"
+BEST_FRAME_2STOP_MECH = "C12/app.best_frame/two-consecutive-terminal-stops-counted-as-one"
 DOUBLE_TRIM_MECH = "C12/container.get_translation/consecutive-trailing-stops-all-trimmed"
 
 
@@ -1244,7 +1245,17 @@ def check_apps(res, cid, data, kind, mt):
                 res.sig(entry, cid, fl, L % 3, f"trim={int(trim)}")
             if n in got:
                 if spell_back(got[n]) not in cands:
-                    res.witness(f"C12/{entry}/returned-sequence-not-a-clean-reading-frame", options=kw, name=n, got=got[n], acceptable=sorted(cands), **common)
+                    mech = f"C12/{entry}/returned-sequence-not-a-clean-reading-frame"
+                    if "frame" not in kw:
+                        # model: best_frame discounts one trailing stop, then takes a second trailing stop for "the" terminal one
+                        for sd in "+-" if kw.get("allow_rc") else "+":
+                            for f in range(3):
+                                x = s if sd == "+" else rc_dna(s)
+                                sub = x[f : f + 3 * ((len(x) - f) // 3)]
+                                tr = xlate(table, sub)
+                                if tr.endswith("**") and "*" not in tr[:-2] and spell_back(got[n]) == (sub[:-3] if trim else sub):
+                                    mech = BEST_FRAME_2STOP_MECH
+                    res.witness(mech, options=kw, name=n, got=got[n], acceptable=sorted(cands), **common)
                 else:
                     res.count("outcome:selected")
             elif must_include:
@@ -1302,7 +1313,8 @@ def check_apps(res, cid, data, kind, mt):
             ok = (1 <= got <= 3 or (allow_rc and -3 <= got <= -1)) and clean(exp6[idx])
             res.sig(entry, cid, frame_label(*FRAMES[idx]) if ok else "?", L % 3)
             if not ok:
-                res.witness("C12/app.best_frame/frame-has-internal-stop", seq=s, allow_rc=allow_rc, got=got, six_frames=exp6, **common)
+                two = 0 <= idx < 6 and exp6[idx].endswith("**") and "*" not in exp6[idx][:-2]
+                res.witness(BEST_FRAME_2STOP_MECH if two else "C12/app.best_frame/frame-has-internal-stop", seq=s, allow_rc=allow_rc, got=got, six_frames=exp6, **common)
     res.count("containers:apps")
 
 
@@ -1560,6 +1572,20 @@ def gen_string(rng, table):
     return s
 
 
+def gen_two_stop(rng, table):
+    """frame 0 is open and ends in TWO consecutive stop codons; the other plus frames hold at least two stops each, so a
+    frame chooser cannot simply prefer them"""
+    stops = stops_of(table)
+    if not stops:
+        return None
+    sense = [c for c in CODONS if c not in stops]
+    for _ in range(3000):
+        s = "".join(rng.choice(sense) for _ in range(rng.randint(12, 30))) + rng.choice(stops) + rng.choice(stops)
+        if all(xlate(table, s, f).count("*") >= 2 for f in (1, 2)):
+            return s
+    return None
+
+
 def gen_rows(rng, table, aligned, gapped):
     """2-4 rows for a collection / alignment, frame 0"""
     stops = stops_of(table)
@@ -1691,6 +1717,11 @@ def _run_case(res, case):
                         data[n] = "".join(rng.choice("ACGT") for _ in range(rng.choice([1, 2]))) + data[n]
                     elif x < 0.5:
                         data[n] = rc_dna(data[n])
+                if True:
+                    two = gen_two_stop(rng, PINNED[cid])
+                    if two:
+                        data["s2stop"] = two
+                        res.count("strings:two-trailing-stops")
             mt = "rna" if rng.random() < 0.15 else "dna"
             check_apps(res, cid, data, ck, mt)
         res.sample({"kind": "app", "container": ck, "code": cid, "data": data})
@@ -1737,6 +1768,7 @@ def required(counters, tier):
         "op:moltype.complement/new/array", "op:moltype.complement/new/bytes", "op:moltype.rc/new/array", "op:moltype.complement/old/list",
         "op:seq.rc/new/as-array", "op:seq.rc/new/as-bytes", "op:seq.rc/old/as-array", "op:seq.complement/new/as-array",
         "op:coll-new-from-rc-seq/to_dict", "op:coll-old-from-rc-seq/to_dict", "op:aln-old-from-rc-seq/to_dict", "op:coll-new.rc/get_seq-array",
+        "strings:two-trailing-stops",
         "op:shared-code-invariant", "op:history-step", "history:rna-first", "history:dna-first", "history:shuffled",
         "op:seq-gapped.get_translation/old", "op:seq-gapped.get_translation/new", "op:seq-gapped.trim_stop_codon/old",
         "strings:gapped-seq/old/rna", "strings:gapped-seq/old/dna", "strings:gapped-seq/new/rna",
